@@ -4,6 +4,7 @@
    Case file (stdin):
        H <name>            start a new history on an empty tree (all nodes of the previous one are freed)
        I <id> <key>        allocate node <id> (fresh within the history) with <key>; a_avl_insert
+       J <id> <key>        a_avl_insert of the RESIDENT node object <id> itself (its key is <key>) a second time
        R <key>             n = a_avl_search(key); if (n) a_avl_remove(n); free(n)
        S <key>             a_avl_search(key)
    Output:
@@ -157,6 +158,14 @@ int main(int argc, char **argv)
                 ++count;
                 dump('i', 0);
             }
+        }
+        else if (c == 'J' && sscanf(line + 1, "%ld %ld", &a, &b) == 2 && a > 0)
+        {
+            a_avl_node *res;
+            need(a);
+            if (!pool[a] || pool[a]->key != b) { printf("E id %ld is not resident with key %ld\n", a, b); continue; }
+            res = a_avl_insert(&root, &pool[a]->node, cmp);
+            dump('i', res ? id_of(res) : 0);
         }
         else if ((c == 'R' || c == 'S') && sscanf(line + 1, "%ld", &a) == 1)
         {
